@@ -14,7 +14,7 @@
 *)
 EXTENDS Html
 
-CONSTANTS MaxToks, TokSet
+CONSTANTS MaxToks, TokSet, PerLineState, FirstLines
 
 \* ---- predicates: 1 GFM, 2 always, 3 never, 4 {script}, 5 {b, script}
 Name(str) == CASE str = "script" -> <<115, 99, 114, 105, 112, 116>> [] str = "style" -> <<115, 116, 121, 108, 101>>
@@ -37,15 +37,24 @@ OnlyLtFrom(plain, i, filt, j) ==
        \/ (plain[i] = 60 /\ HasPrefixAt(filt, j, ESC) /\ OnlyLtFrom(plain, i + 1, filt, j + 4))
 OnlyLt(plain, filt) == OnlyLtFrom(plain, 1, filt, 1)
 
-\* ---- the code's scanner (html_renderer.go filterRaw), one raw HTML node at a time
-RECURSIVE IndexOf(_, _, _), NameEnd(_, _, _)
-IndexOf(s, i, c) == IF i > Len(s) THEN 0 ELSE IF s[i] = c THEN i ELSE IndexOf(s, i + 1, c)
+\* ---- the code's scanner (html_renderer.go filterRaw). The renderer calls it once per raw HTML node, i.e. once per LINE of
+\* an HTML block or inline tag; the scanner state (copy / comment / decl / tag) carries over from one line to the next, and a
+\* non-rejected tag runs to the next '>' ON ITS LINE, else the scanner stays in the tag on the following line.
+\* Named deviation PerLineState (FALSE in every property config): the state is reset at every line start, as the pinned code
+\* did (known_findings.json F-C17-per-line-filter-state); with it TLC finds ScannerSound violated, e.g. by
+\* "<![CDATA[" LF "<!--" ">" "<script" ">".
+RECURSIVE IndexOfIn(_, _, _, _), NameEnd(_, _, _), LineEnd(_, _)
+LFB == 10
+LineEnd(s, i) == IF i > Len(s) THEN Len(s) ELSE IF s[i] = LFB THEN i ELSE LineEnd(s, i + 1)     \* index of the line's last byte
+IndexOfIn(s, i, c, lim) == IF i > lim THEN 0 ELSE IF s[i] = c THEN i ELSE IndexOfIn(s, i + 1, c, lim)
 NameEnd(s, i, lim) == IF i >= lim THEN lim ELSE IF IsAlpha(s[i]) \/ IsDigit(s[i]) \/ s[i] = DASH THEN NameEnd(s, i + 1, lim) ELSE i
 LowerSeq(x) == [k \in 1..Len(x) |-> Lower(x[k])]
+Carry(st, s, i) == IF PerLineState /\ i > 1 /\ s[i - 1] = LFB THEN "copy" ELSE st          \* i is the first byte of a line
 RECURSIVE FR(_, _, _, _, _)
-FR(s, i, st, out, p) ==
+FR(s, i, st0, out, p) ==
   IF i > Len(s) THEN out
   ELSE
+  LET st == Carry(st0, s, i) IN
   CASE st = "copy" ->
          IF s[i] # LT THEN FR(s, i + 1, "copy", Append(out, s[i]), p)
          ELSE IF HasPrefixAt(s, i, <<LT, BANG, DASH, DASH>>) THEN
@@ -55,18 +64,19 @@ FR(s, i, st, out, p) ==
          ELSE IF At(s, i + 1) \in {BANG, QM} THEN FR(s, i + 2, "decl", out \o SubSeq(s, i, i + 1), p)
          ELSE IF IsAlpha(At(s, i + 1)) \/ At(s, i + 1) = SLASH THEN
               LET ns == i + 1
-                  gt == IndexOf(s, ns, GT)
-                  tagEnd == IF gt = 0 THEN Len(s) + 1 ELSE gt + 1          \* exclusive
+                  le == LineEnd(s, i)
+                  gt == IndexOfIn(s, ns, GT, le)
+                  tagEnd == IF gt = 0 THEN le + 1 ELSE gt + 1          \* exclusive
                   ne == IF IsAlpha(At(s, ns)) THEN NameEnd(s, ns + 1, tagEnd) ELSE ns
                   name == LowerSeq(SubSeq(s, ns, ne - 1))
               IN IF Rejects(p, name) THEN FR(s, ns, "copy", out \o ESC, p)      \* the rest of the tag is text now: keep scanning it
-                 ELSE FR(s, tagEnd, "copy", out \o SubSeq(s, i, tagEnd - 1), p)
+                 ELSE FR(s, tagEnd, (IF gt = 0 THEN "tag" ELSE "copy"), out \o SubSeq(s, i, tagEnd - 1), p)
          ELSE FR(s, i + 1, "copy", Append(out, s[i]), p)
     [] st = "comment" ->
          IF HasPrefixAt(s, i, <<DASH, DASH, GT>>) THEN FR(s, i + 3, "copy", out \o <<DASH, DASH, GT>>, p)
          ELSE IF HasPrefixAt(s, i, <<DASH, DASH, BANG, GT>>) THEN FR(s, i + 4, "copy", out \o <<DASH, DASH, BANG, GT>>, p)
          ELSE FR(s, i + 1, "comment", Append(out, s[i]), p)
-    [] st = "decl" -> FR(s, i + 1, (IF s[i] = GT THEN "copy" ELSE "decl"), Append(out, s[i]), p)
+    [] st \in {"decl", "tag"} -> FR(s, i + 1, (IF s[i] = GT THEN "copy" ELSE st), Append(out, s[i]), p)
 FilterRaw(s, p) == FR(s, 1, "copy", <<>>, p)
 
 \* ---- generator: raw strings = concatenations of up to MaxToks tokens
@@ -74,11 +84,16 @@ Tk(name) == CASE name = "<" -> <<LT>> [] name = ">" -> <<GT>> [] name = "!" -> <
               [] name = "?" -> <<QM>> [] name = "[CDATA[" -> <<91, 67, 68, 65, 84, 65, 91>> [] name = "]]" -> <<93, 93>>
               [] name = "script" -> Name("script") [] name = "ScRiPt" -> <<83, 99, 82, 105, 80, 116>> [] name = "b" -> <<98>>
               [] name = "3" -> <<51>> [] name = " " -> <<32>> [] name = "DQ" -> <<34>> [] name = "=" -> <<61>> [] name = "a" -> <<97>>
+              [] name = "NL" -> <<10>> [] name = "<!--" -> <<LT, BANG, DASH, DASH>> [] name = "<script" -> <<LT>> \o Name("script")
+              \* first lines that leave a tokenizer inside a bogus comment, a comment or a tag when the line ends
+              [] name = "P?" -> <<LT, QM, 10>> [] name = "Pb" -> <<LT, 98, 10>> [] name = "Pcdata" -> <<LT, BANG, 91, 67, 68, 65, 84, 65, 91, 10>>
+              [] name = "Pcomment" -> <<LT, BANG, DASH, DASH, 10>> [] name = "Pattr" -> <<LT, 98, 32, 97, 61, 34, 10>>
 VARIABLES doc
 RECURSIVE FlattenFrom(_, _)
 FlattenFrom(d, k) == IF k > Len(d) THEN <<>> ELSE Tk(d[k]) \o FlattenFrom(d, k + 1)
 Raw == FlattenFrom(doc, 1)
-GenInit == doc = <<>> /\ tid = 0 /\ verdict = "ok"
+\* FirstLines: a subset of {"P?", "Pb", "Pcdata", "Pcomment", "Pattr"} (empty in the wide-alphabet configs)
+GenInit == (doc = <<>> \/ \E f \in FirstLines : doc = <<f>>) /\ tid = 0 /\ verdict = "ok"
 GenNext == Len(doc) < MaxToks /\ (\E t \in TokSet : doc' = Append(doc, t)) /\ UNCHANGED <<tid, verdict>>
 \* the implementation-shaped scanner satisfies the abstract requirement (raw string alone, as one data-state document)
 ScannerSound == \A p \in {1, 4, 5} : LET f == FilterRaw(Raw, p) IN NoRejectedStart(f, p) /\ OnlyLt(Raw, f)
